@@ -40,6 +40,7 @@ fn main() {
         usage();
     }
     framework::install_panic_hook();
+    framework::install_logger();
     if let Err(e) = refcodec::self_test(&format!("{}/zvt/data", repo_dir())) {
         eprintln!("HARNESS ERROR: {e}");
         std::process::exit(2);
